@@ -173,6 +173,7 @@ var (
 		S2Err  map[string]string `json:"s2err"`
 		Status map[string]int    `json:"status"`
 		Msg    map[string]string `json:"msg"`
+		MarshalBack map[string]bool `json:"marshalback"`
 	}
 )
 
@@ -211,6 +212,18 @@ func S2FmtStable(h int) bool                 { return accBool("S2FmtStable") }
 func S2Fits(h int) bool                      { return accBool("S2Fits") }
 func S2HasType(h int, typ string) bool       { return accBool("S2HasType") }
 func S2HasMethod(h int, typ, m string) bool  { return accBool("S2HasMethod") }
+func RExtrasCollected(r int, goPath string, doc int, docPath string) bool {
+	return accBool("RExtrasCollected")
+}
+
+func RMarshalBack(r, doc int) bool {
+	rec := accBool("RMarshalBack")
+	// observed natively by the stage-2 driver (real generated code, real encoding/json)
+	if v, ok := observed.MarshalBack[strconv.Itoa(r)]; ok {
+		return v
+	}
+	return rec
+}
 func NewDoc() int                            { d := nDoc; nDoc++; return d }
 
 func Unmarshal(h int, typ, format string, doc int) int {
@@ -304,7 +317,7 @@ func Run(h func()) {
 		return
 	}
 	pos, nS2, nDoc, nUnm = 0, 0, 0, 0
-	observed.S2OK, observed.S2Err, observed.Status, observed.Msg = nil, nil, nil, nil
+	observed.S2OK, observed.S2Err, observed.Status, observed.Msg, observed.MarshalBack = nil, nil, nil, nil, nil
 	if ob, err := os.ReadFile(filepath.Join(os.Getenv("ZZ_OUT"), "observed.json")); err == nil {
 		_ = json.Unmarshal(ob, &observed)
 	}
